@@ -73,7 +73,7 @@ def gen_name(rnd):
   return ''.join(chars)
 
 
-VALUES = [0.0, 1.0, -1.5, 1e-7, 1e300, -2.5e-300, float('inf'), float('-inf'), 3, -7, 2 ** 53, 0.1, 123456789.125]
+VALUES = [0.0, 1.0, -1.5, 1e-7, 1e300, -2.5e-300, float('inf'), float('-inf'), 3, -7, 2 ** 53, 0.1, 123456789.125, -1, -1.0, 0]
 
 
 def gen_dp(rnd):
